@@ -71,7 +71,7 @@ def run(rep, tier):
             if sorted(map(norm, o["absent"])) != sorted(map(norm, c["absent"])):
                 rep.violation("paths/unescaped-path-resolves", {"case": c, "expected_absent": c["absent"], "observed_absent": o["absent"]})
     rep.sample({"case": cases[1000], "observed": obs[1000]})
-    n = 200000 if thorough else 6000
+    n = 100000 if thorough else 6000
     tpath = vlib.record_trace("C12", ["record", "c12", "--n", str(n)])
     recs = vlib.read_ndjson(tpath)
     nrec, bad = vlib.validate_trace(rep, "C12", "Trace_C12", tpath, stack="1g")
